@@ -505,10 +505,7 @@ int main(int argc, char **argv)
     int i;
     vh_init(argc, argv);
     prop = vh_getarg("prop", "C15");
-    if (atoi(vh_getarg("starve", "0"))) {
-        if (!starve()) { printf("{\"type\":\"inconclusive\",\"reason\":\"cannot install the mlock-failing seccomp filter\"}\n"); return 2; }
-        *vh_counter_ref("max_runs_with_mlock_failing") = 1;
-    }
+
     if (ref_selftest()) { printf("{\"type\":\"harness_error\",\"detail\":\"ref selftest\"}\n"); return 2; }
     vh_guard_init();
     vh_install_fault_handler();
@@ -533,6 +530,10 @@ int main(int argc, char **argv)
             *vh_counter_ref("max_monitor_positive_controls_passed") = 3;
         }
         am_release_all(); am_hard_reset();
+    }
+    if (atoi(vh_getarg("starve", "0"))) {      /* after the back ends were identified: from here on locking memory fails */
+        if (!starve()) { printf("{\"type\":\"inconclusive\",\"reason\":\"cannot install the mlock-failing seccomp filter\"}\n"); return 2; }
+        *vh_counter_ref("max_runs_with_mlock_failing") = 1;
     }
     if (!strcmp(vh_arg_mode, "c15crowd")) { vh_fork_each_case = 1; vh_run(crowd_case); }
     else if (!strcmp(vh_arg_mode, "c16") || cold) vh_run(c16_case); else vh_run(life_case);
